@@ -76,7 +76,7 @@ CLAIMED = {
             "Proof of the decision logic (policy = documented Spec for every sslopt/env/host) and of the ordering dial -> [CONNECT] -> wrap -> "
             "request over whole connect traces. That CPython/OpenSSL enforce verify_mode/check_hostname is trusted; thorough tier exercises "
             "loopback TLS servers with minted certificates.", "OpenSSL verification itself is not modelled.", "DESIGN.md §6 C11"),
-    "C12": ("Lean 4 theorems C12_short_writes, C12_one_frame_per_send, C12_senders, C12b.C12_receivers, C12c.C12_programs (all interleavings of any number of threads), generated lock-scope facts" + T_CORR + " (co-simulation under a baton scheduler)",
+    "C12": ("Lean 4 theorems C12_short_writes, C12_one_frame_per_send, C12_senders, C12b.C12_receivers, C12c.C12_programs, C12d.C12_glue_* (write loop over the real transport glue, would-block worlds) (all interleavings of any number of threads), generated lock-scope facts" + T_CORR + " (co-simulation under a baton scheduler)",
             "Proof: every short-write pattern puts exactly the frame on the wire; for any number of threads, frames, patterns and EVERY schedule "
             "the wire is whole frames in completion order (+ a prefix of the lock holder's frame), by an invariant preserved by every step; the "
             "lock scopes are generated facts. Real threads are co-simulated with the model on identical schedules (all schedules of length 9/11 "
